@@ -120,7 +120,7 @@ def run():
     sl = chk.stage('function-level StopRun.check', stopcheck_level)
     if sl:
         chk.corr("function-level StopRun.check with every combination of max_time / max_score / early_stopping", sl[0], sl[1], {("fn", "stopcheck-combos")})
-    specs = scenarios(r, 150 if quick else 1500)
+    specs = scenarios(r, C.T(150, 1500))
     fails = D.run_specs(chk, "driver-level stop step under max_time (virtual clock) vs search.py/_stop_run.py/_times_tracker.py", specs, monitor)
     chk.monitor("C14 statement on the real runs (duration schedules with zeros, exact hits, cache hits)", len(specs), fails)
     chk.assumptions.append("real wall-clock behaviour (time.time resolution, step-internal overhead) is outside the model: the property is stated against the substituted clock")
